@@ -13,12 +13,19 @@ package sched
 import (
 	"container/heap"
 	"fmt"
+	"os"
 	"reflect"
 	"runtime"
 	"sort"
 	"strings"
 	"time"
 )
+
+// unlockPoints: every Unlock / RUnlock is a scheduling point of its own. Off by default: a critical section
+// without a hooked operation inside is atomic for every other thread, because the only way to see that a lock is
+// held is to block on it. TryLock / TryRLock can see it without blocking, so bin/check switches this on (for the
+// whole run, hence deterministically) when the instrumented tree calls one of them.
+var unlockPoints = os.Getenv("VERIF_UNLOCK_POINTS") == "1"
 
 // Status is the way an execution ended.
 type Status int
@@ -855,6 +862,11 @@ func (s *State) MuTryLock(m *MuState) bool {
 }
 
 func (s *State) MuUnlock(m *MuState) {
+	if unlockPoints {
+		o := s.newOp(KYield)
+		o.obj = ptrOf(m)
+		s.point(o)
+	}
 	st := m.get(s.epoch)
 	if !st.held {
 		panic("sync: unlock of unlocked mutex")
@@ -885,6 +897,11 @@ func (s *State) RWLock(m *RWState) {
 }
 
 func (s *State) RWUnlock(m *RWState) {
+	if unlockPoints {
+		o := s.newOp(KYield)
+		o.obj = ptrOf(m)
+		s.point(o)
+	}
 	st := m.get(s.epoch)
 	if !st.writer {
 		panic("sync: Unlock of unlocked RWMutex")
@@ -902,6 +919,11 @@ func (s *State) RWRLock(m *RWState) {
 }
 
 func (s *State) RWRUnlock(m *RWState) {
+	if unlockPoints {
+		o := s.newOp(KYield)
+		o.obj = ptrOf(m)
+		s.point(o)
+	}
 	st := m.get(s.epoch)
 	if st.readers <= 0 {
 		panic("sync: RUnlock of unlocked RWMutex")
